@@ -18,7 +18,9 @@
   `ComposeStatement` and `DeserDefaultHistoryStatement`, which the code before f017e49 violated (kernel-checked
   counterexamples then), are now theorems; the former counterexample inputs are kept as `fixed_*` examples.
 -/
-import TypedpyModel.Lemmas.Convert
+import TypedpyModel.Lemmas.ConvertStep
+import TypedpyModel.Lemmas.AliasC17
+import TypedpyModel.Generated.AliasingC17
 namespace Typedpy.C17
 open Typedpy.Convert
 
@@ -220,6 +222,212 @@ theorem convert_constant_set (k : String) (v : Json) (m : Mapping) (kvs : Obj) (
   rw [loop3_const _ _ huc, loop2_const _ _ huc]
   exact loop1_const _ kvs kvs o1 huc h1 (Or.inl hc)
 
+/-! ### the documented single-step contract (docs/versioning.rst) — every clause, proved
+
+  `stepViolations m before after` (Spec/ConvertSpec.lean) lists the clauses of the documented contract of one mapping
+  application that a pair of documents violates: deleted, constant, move (dotted paths, the rename idiom), function
+  (arguments as the entries written before left them), nested `._mapper` (a sub-document, every sub-document of a
+  list; `None` / absent stay), frame.  The driver evaluates it on what the real code returned.  Here: the model of
+  `_convert` satisfies ALL of it, for every mapping that is a Python dict (`wfMapping`: a key occurs once per nesting
+  level), whatever user functions its `FunctionCall` entries carry, and every JSON value. -/
+
+/-- **step_contract_holds**: `_convert` satisfies every clause of the documented contract -/
+theorem step_contract_holds (m : Mapping) (hwf : wfMapping m = true) (before after : Json)
+    (h : convert m before = .ok after) : stepViolations m before after = [] :=
+  c17_step_contract m hwf before after h
+
+/-- one iteration of `convert_dict` (`_convert`, then `version` is set by the caller) satisfies the contract -/
+theorem step_contract_top_holds (m : Mapping) (hwf : wfMapping m = true) (b : Obj) (d' d'' : Json) (v : Int)
+    (h : convert m (.obj b) = .ok d') (hs : setVersion v d' = .ok d'') : stepViolationsTop m (.obj b) d'' = [] :=
+  c17_step_contract_top m hwf b d' d'' v h hs
+
+/-- **convert_steps_contract**: the conversions with the prefixes `ms[:k]` and `ms[:k+1]` (what the driver's
+    `modelSteps` / `implSteps` look at) are one contract-satisfying application of `ms[k]` apart — so
+    `convert_dict` from version `v` to the latest is the fold of documented single steps `v, v+1, …, len` -/
+theorem convert_steps_contract (ms : List Mapping) (hwf : ∀ m, m ∈ ms → wfMapping m = true) (d b a : Json) (v : Int)
+    (k : Nat) (m : Mapping) (hv : effectiveVersion d = some v) (h1 : 1 ≤ v) (hk : v ≤ (k : Int) + 1)
+    (hm : ms[k]? = some m) (hb : convertDict d (ms.take k) = .ok b) (ha : convertDict d (ms.take (k + 1)) = .ok a) :
+    stepViolationsTop m b a = [] := by
+  have hklt : k < ms.length := by
+    rcases List.getElem?_eq_some_iff.mp hm with ⟨hlt, _⟩
+    exact hlt
+  rw [convertDict_drop _ hv h1] at hb ha
+  have hvb := runSteps_effVersion _ d b v hv hb
+  rw [List.take_add_one, hm, Option.toList_some,
+    List.drop_append_of_le_length (by rw [List.length_take]; omega), runSteps_append, hb, bindE_ok] at ha
+  simp only [runSteps] at ha
+  rcases bindE_eq_ok ha with ⟨d', hc, h2⟩
+  rcases bindE_eq_ok h2 with ⟨d'', hs, h3⟩
+  cases h3
+  rcases effectiveVersion_obj hvb with ⟨kvs, rfl, _⟩
+  exact c17_step_contract_top m (hwf m (List.mem_of_getElem? hm)) kvs d' a _ hc hs
+
+/-- **convert_fn_error_propagates**: whatever a user function raises on the arguments loop 1 hands it (the values
+    the entries written before it left) is what `_convert` raises — for every user function, nothing is swallowed -/
+theorem convert_fn_error_propagates (mp mr : Mapping) (k : String) (g : UserFn) (args : List String)
+    (b op : Obj) (e : Err) (hp : loop1 (compileMap mp) b b = .ok op)
+    (hg : g ((if args.isEmpty then [k] else args).map fun a => getD a op) = .error e) :
+    convert (mp ++ (k, .fn g args) :: mr) (.obj b) = .error e := by
+  simp only [convert, convShape, compileMap_append, loop1_append, hp, bindE_ok, compileMap, Entry.compile, loop1,
+    step1, hg, bindE_error]
+
+/-- … and when it answers, the key holds the answer (no other entry for the key): the FunctionCall clause spelled
+    out for an arbitrary user function `g` -/
+theorem convert_fn_result (mp mr : Mapping) (k : String) (g : UserFn) (args : List String) (b : Obj) (r : Json)
+    (hu1 : ∀ e', (k, e') ∉ mp) (hu2 : ∀ e', (k, e') ∉ mr)
+    (h : convert (mp ++ (k, .fn g args) :: mr) (.obj b) = .ok r) :
+    ∃ op a v, loop1 (compileMap mp) b b = .ok op ∧ r = .obj a
+      ∧ g ((if args.isEmpty then [k] else args).map fun x => getD x op) = .ok v ∧ get k a = some v := by
+  rcases c17_convert_unfold h with ⟨o1, h1, rfl⟩
+  rcases c17_loop1_at mp mr b b o1 (fun e' he' => absurd he' (hu2 e')) h1 with ⟨op, o2, hp, hs2, hg⟩
+  simp only [Entry.compile, step1] at hs2
+  rcases bindE_eq_ok hs2 with ⟨v, hv, hs3⟩
+  cases hs3
+  have hall : ∀ e', (k, e') ∈ mp ++ (k, Entry.fn g args) :: mr → e' = Entry.fn g args := by
+    intro e' he'
+    rcases c17_mem_split he' with h' | h' | h'
+    · exact absurd h' (hu1 e')
+    · exact h'
+    · exact absurd h' (hu2 e')
+  refine ⟨op, _, v, hp, rfl, hv, ?_⟩
+  rw [c17_after_eq o1 (fun e' he' => by rw [hall e' he']; rfl) (fun e' he' => by rw [hall e' he']; rfl), hg,
+    get_set_same]
+
+/-- the contract is not vacuous: on a mapping with a rename, a Constant, a FunctionCall and a nested `._mapper` over a
+    list the model's result passes, and tampering with any one of the moved key, the deleted key, the constant, the
+    function result, a nested sub-document or an unmentioned key is reported -/
+def exStepMapping : Mapping :=
+  [("n", .move ["o", "i"]), ("o", .deleted), ("c", .const (.int 7)), ("f", .fn (applyFn .addOne) ["x"]),
+   ("s", .sub [("t", .const (.str "q"))])]
+
+def exStepBefore : Json :=
+  .obj [("o", .obj [("i", .float 5 2)]), ("x", .int 4), ("s", .list [.obj [("u", .int 0)]]), ("z", .int 5)]
+
+def exStepAfter (n c f t z : Json) (o : List (String × Json)) : Json :=
+  .obj (o ++ [("x", .int 4), ("s", .list [.obj [("u", .int 0), ("t", t)]]), ("z", z), ("c", c), ("f", f), ("n", n)])
+
+theorem step_contract_sensitive_example :
+    wfMapping exStepMapping = true
+    ∧ sameResult (convert exStepMapping exStepBefore)
+        (.ok (exStepAfter (.float 5 2) (.int 7) (.int 5) (.str "q") (.int 5) [])) = true
+    ∧ (stepViolations exStepMapping exStepBefore (exStepAfter (.float 5 2) (.int 7) (.int 5) (.str "q") (.int 5) [])).length = 0
+    ∧ (stepViolations exStepMapping exStepBefore (exStepAfter (.int 5) (.int 7) (.int 5) (.str "q") (.int 5) [])).length = 1
+    ∧ (stepViolations exStepMapping exStepBefore (exStepAfter (.float 5 2) (.int 8) (.int 5) (.str "q") (.int 5) [])).length = 1
+    ∧ (stepViolations exStepMapping exStepBefore (exStepAfter (.float 5 2) (.int 7) (.int 4) (.str "q") (.int 5) [])).length = 1
+    ∧ (stepViolations exStepMapping exStepBefore (exStepAfter (.float 5 2) (.int 7) (.int 5) (.str "r") (.int 5) [])).length = 1
+    ∧ (stepViolations exStepMapping exStepBefore (exStepAfter (.float 5 2) (.int 7) (.int 5) (.str "q") (.int 6) [])).length = 2
+    ∧ (stepViolations exStepMapping exStepBefore
+        (exStepAfter (.float 5 2) (.int 7) (.int 5) (.str "q") (.int 5) [("o", .null)])).length = 1 := by
+  decide
+
+/-! ### start versions below 1: the documentation ("The version is expected to start with 1", field `version:
+    PositiveInt`) leaves no room for them, yet `convert_dict` slices the history with a negative index -/
+
+/-- full-strength statement: a document whose `version` is an integer below 1 is not converted (it is rejected) -/
+def NonPositiveRejectedStatement : Prop :=
+  ∀ (ms : List Mapping) (d : Json) (v : Int), docVersion d = some v → v < 1 → ∃ e, convertDict d ms = .error e
+
+/-- finding `invalid-version-accepted:convert_dict-nonpositive-start-version`:
+    `convert_dict({"version": 0}, [{"a": Constant(1)}, {"b": Constant(2)}])` applies the LAST mapping only
+    (`versions_mapping[-1:]`) and answers `{"version": 1, "b": 2}` — a document labelled version 1 -/
+theorem nonpositive_version_accepted_example :
+    sameResult (convertDict (.obj [("version", .int 0)]) [[("a", .const (.int 1))], [("b", .const (.int 2))]])
+      (.ok (.obj [("version", .int 1), ("b", .int 2)])) = true := by
+  decide
+
+theorem nonpositive_rejected_refuted : ¬ NonPositiveRejectedStatement := by
+  intro h
+  rcases h [[("a", .const (.int 1))], [("b", .const (.int 2))]] (.obj [("version", .int 0)]) 0 rfl (by decide)
+    with ⟨e, he⟩
+  have := sameResult_sound nonpositive_version_accepted_example
+  rw [he] at this
+  cases this
+
+/-- what the code does there, exactly: Python slice semantics on the history, the counter started at `v` -/
+theorem convert_nonpositive_characterised (ms : List Mapping) (kvs : Obj) (v : Int)
+    (hv : get "version" kvs = some (.int v)) :
+    convertDict (.obj kvs) ms = runSteps (pySliceFrom (v - 1) ms) v (.obj kvs) := by
+  simp [convertDict, startVersion, hv, versionInt]
+
+/-! ### "leaves its input intact", proved on the heap
+
+  `convert_pure` above is true by construction of the value-level model.  The statements below are about a
+  heap-level model of the same code (Sem/AliasC17.lean: `hConvertDict` / `hConvert` over the ownership model of C19,
+  Sem/Alias.lean — cells with identity, `copy.deepcopy` as `deepCopy`, `out_dict[k] = …` / `del` as writes into the
+  cell `out_dict` refers to, `deep_get` handing out references, user functions as arbitrary heap transformers).
+  What the code does at its three copy sites (`convert_dict`: `copy.deepcopy(the_dict)`; `_convert`:
+  `copy.deepcopy(mapped_dict)`; Constant: `copy.deepcopy(v())`) is a parameter `S : Sites` of that model; the value
+  the source has TODAY is regenerated on every run by extract/aliasing_c17.py into Generated/AliasingC17.lean
+  (`Gen.sites`, `Gen.paramWrites`, `Gen.nestedReadsInput`) and the obligations `*_today` are re-decided.
+  User functions are restricted by the capability discipline `FnOk` only (allocate; return an atom, something new
+  or something reachable from the arguments) — they may even mutate what they were given. -/
+
+/-- the two copy sites `convert_dict`'s intactness rests on — `copy.deepcopy(the_dict)` and
+    `copy.deepcopy(v())` of a Constant's value — copy in the source as regenerated today.  (What `_convert` does with
+    its own argument, deep / shallow / no copy, does not matter: it only ever sees `convert_dict`'s private copy.) -/
+theorem sites_doc_const_copy_today :
+    AliasC17.Gen.sites.doc.copies = true ∧ AliasC17.Gen.sites.const.copies = true := by decide
+
+/-- no statement of `convert_dict` / `_convert` writes through an object of the caller (`the_dict`,
+    `versions_mapping`, a mapping, a `FunctionCall`) or an un-copied alias of one -/
+theorem no_doc_writes_today : AliasC17.Gen.docWrites = [] := by decide
+
+/-- **convert_input_intact**: for every history (any nesting, any `FnOk` user functions), every heap and document,
+    and EVERY way `_convert` may copy or not copy its own argument: `convert_dict` changes no cell that existed
+    before the call (the caller's document, the mapping objects, the Constant values) — also when it raises midway;
+    the result lives entirely in cells allocated by the call, so no cell reachable from it is reachable from any
+    pre-existing root; whatever the caller later does to the result cannot change anything that existed before,
+    and whatever it does to old objects cannot change the result -/
+theorem convert_input_intact (A : AliasC17.Atoms) {S : AliasC17.Sites} (hd : S.doc.copies = true)
+    (hc : S.const.copies = true) (fuel : Nat) (ver : Nat → Int) (ms : List AliasC17.HMapping)
+    (hm : ∀ m, m ∈ ms → AliasC17.mapFnsOk m) :
+    AliasC17.IntactFor (AliasC17.hConvertDict A S fuel ver ms) :=
+  AliasC17.hConvertDict_intact_weak A hd hc fuel ver ms hm
+
+/-- … with the copy sites the source has today -/
+theorem convert_input_intact_today (A : AliasC17.Atoms) (fuel : Nat) (ver : Nat → Int)
+    (ms : List AliasC17.HMapping) (hm : ∀ m, m ∈ ms → AliasC17.mapFnsOk m) :
+    AliasC17.IntactFor (AliasC17.hConvertDict A AliasC17.Gen.sites fuel ver ms) :=
+  AliasC17.hConvertDict_intact_weak A sites_doc_const_copy_today.1 sites_doc_const_copy_today.2 fuel ver ms hm
+
+/-- the same for one `_convert` on its own (nested `._mapper` conversion included), when it deep-copies its
+    argument and the Constant values (a statement about the private helper; no obligation of today's source) -/
+theorem step_input_intact (A : AliasC17.Atoms) {S : AliasC17.Sites} (hst : S.step.copies = true)
+    (hc : S.const.copies = true) (fuel : Nat) (m : AliasC17.HMapping)
+    (hm : AliasC17.mapFnsOk m) : AliasC17.IntactFor (AliasC17.hConvert A S fuel m) :=
+  AliasC17.hConvert_intact A hst hc fuel m hm
+
+/-- unfolded: the converted document shares no cell with anything the caller held before -/
+theorem convert_result_disjoint (A : AliasC17.Atoms) {S : AliasC17.Sites} (hd : S.doc.copies = true)
+    (hc : S.const.copies = true) (fuel : Nat)
+    (ver : Nat → Int) (ms : List AliasC17.HMapping) (hm : ∀ m, m ∈ ms → AliasC17.mapFnsOk m)
+    (h : Alias.Heap) (doc : Alias.Item) (h' : Alias.Heap) (res : Alias.Item)
+    (e : AliasC17.hConvertDict A S fuel ver ms h doc = (h', some res)) (cb : Alias.ClosedBelow h.next h)
+    (K : List Nat) (hK : ∀ r, r ∈ K → r < h.next) :
+    ∀ b, Alias.Held h' (AliasC17.roots res) b → (h.next ≤ b ∧ b < h'.next) ∧ ¬ Alias.Held h' K b :=
+  AliasC17.hConvertDict_disjoint_weak A hd hc fuel ver ms hm h doc h' res e cb K hK
+
+/-- non-vacuity / the hypotheses are needed (kernel-evaluated on a small heap): with all three sites copying the
+    call succeeds, leaves the old cells alone and shares nothing; a `_convert` WITHOUT its own `deepcopy`, called
+    directly on a caller's document, writes into it (which is why `convert_dict`'s own copy matters) -/
+theorem heap_examples :
+    ((AliasC17.exRun AliasC17.allDeep).2.isSome = true
+      ∧ Alias.sameBelow AliasC17.exHeap.next AliasC17.exHeap (AliasC17.exRun AliasC17.allDeep).1 = true
+      ∧ Alias.sharedPaths 8 (AliasC17.exRun AliasC17.allDeep).1 AliasC17.exOld []
+          (AliasC17.resOf (AliasC17.exRun AliasC17.allDeep)) = [])
+    ∧ ¬ Alias.Frame AliasC17.exHeap
+        (AliasC17.hConvert AliasC17.exAtoms { AliasC17.allDeep with step := .alias } 9
+          [("k", .const (.atom 7)), ("name", .deleted)] AliasC17.exHeap (.ref 0)).1 :=
+  ⟨⟨AliasC17.example_all_deep.1, AliasC17.example_all_deep.2.2.1, AliasC17.example_all_deep.2.2.2.1⟩,
+    AliasC17.step_alias_breaks_frame⟩
+
+/-- a `version` that is no integer (str, None, float, list, dict) is rejected with TypeError before anything else
+    happens (`start_version - 1`); a bool is an int in Python (`True` = 1, `False` = 0) -/
+theorem convert_nonint_version_raises (ms : List Mapping) (kvs : Obj) (x : Json)
+    (hv : get "version" kvs = some x) (hx : versionInt x = none) :
+    convertDict (.obj kvs) ms = .error .typeErr := by
+  simp [convertDict, startVersion, hv, hx]
+
 /-! ### `Versioned` deserialization and construction -/
 
 /-- **versioned_deser_equiv**: deserializing a `Versioned` class (with or without a `_versions_mapping`
@@ -342,10 +550,10 @@ theorem fixed_clobber_example :
 /-- was `compose-broken:versionless-document`: with `ms = [{"a": FunctionCall(add_one)}]`, `d = {"a": 1}` the
     two-stage and the one-stage result are both `{"a": 2, "version": 2}` -/
 theorem fixed_compose_versionless_example :
-    (match convertDict (.obj [("a", .int 1)]) ([[("a", .fn .addOne [])]].take 1) with
-      | .ok d1 => sameResult (convertDict d1 [[("a", .fn .addOne [])]])
+    (match convertDict (.obj [("a", .int 1)]) ([[("a", .fn (applyFn .addOne) [])]].take 1) with
+      | .ok d1 => sameResult (convertDict d1 [[("a", .fn (applyFn .addOne) [])]])
                     (.ok (.obj [("a", .int 2), ("version", .int 2)]))
-                  && sameResult (convertDict (.obj [("a", .int 1)]) [[("a", .fn .addOne [])]])
+                  && sameResult (convertDict (.obj [("a", .int 1)]) [[("a", .fn (applyFn .addOne) [])]])
                     (.ok (.obj [("a", .int 2), ("version", .int 2)]))
       | .error _ => false) = true := by
   decide
@@ -380,9 +588,9 @@ theorem beq_sound (a b : R Json) (h : sameResult a b = true) : a = b := sameResu
     with arguments, a dotted move and deletions -/
 def exHistory : List Mapping :=
   [ [("j", .const (.int 100)),
-     ("items", .sub [("n", .fn .addOne []), ("tag", .const (.str "t"))])],
-    [("bar", .move ["old", "inner"]), ("old", .deleted), ("w", .fn .pair ["i", "j"])],
-    [("first", .move ["items", "n"]), ("i", .fn .wrap ["i"])] ]
+     ("items", .sub [("n", .fn (applyFn .addOne) []), ("tag", .const (.str "t"))])],
+    [("bar", .move ["old", "inner"]), ("old", .deleted), ("w", .fn (applyFn .pair) ["i", "j"])],
+    [("first", .move ["items", "n"]), ("i", .fn (applyFn .wrap) ["i"])] ]
 
 def exDoc : Json :=
   .obj [("version", .int 1), ("i", .int 2),
